@@ -92,6 +92,84 @@ func (r *reader) released() []Tok {
 	}
 }
 
+// writer: one end's application writer (same way of telling "parked" as for the reader; whether the parked call has queued its own chunk
+// already is read off the queue's next sequence number)
+type writeRes struct {
+	n   int
+	err error
+}
+
+type writer struct {
+	do      func(d []byte) (int, error)
+	waiters func() int
+	next    func() uint16
+	pending chan writeRes
+}
+
+func wresToks(r writeRes) []Tok {
+	switch {
+	case r.err == nil:
+		return []Tok{TW("w"), TIn(r.n), TW("ok")}
+	case r.err == os.ErrClosed:
+		return []Tok{TW("w"), TIn(r.n), TW("closed")}
+	}
+	return []Tok{TW("w"), TIn(r.n), TW("err")}
+}
+
+func (w *writer) write(d []byte) []Tok {
+	if w.pending != nil {
+		return []Tok{TW("busy")}
+	}
+	w0, n0 := w.waiters(), w.next()
+	ch := make(chan writeRes, 1)
+	go func() { n, err := w.do(d); ch <- writeRes{n, err} }()
+	deadline := time.Now().Add(15 * time.Second)
+	for {
+		select {
+		case res := <-ch:
+			return wresToks(res)
+		default:
+		}
+		if w.waiters() > w0 {
+			w.pending = ch
+			return []Tok{TW("wblock"), TBool(w.next() != n0)}
+		}
+		if time.Now().After(deadline) {
+			return []Tok{TW("stuck")}
+		}
+		time.Sleep(20 * time.Microsecond)
+	}
+}
+
+// released: after an operation on this end (n0: the queue's next sequence number before it). An operation that notifies the parked writer
+// empties the notifier list before it returns; the writer then either returns or queues its chunk (the sequence number moves) and parks again.
+// A list that is not empty with the sequence number where it was means: not notified.
+func (w *writer) released(n0 uint16) []Tok {
+	if w.pending == nil {
+		return nil
+	}
+	deadline := time.Now().Add(15 * time.Second)
+	for {
+		select {
+		case res := <-w.pending:
+			w.pending = nil
+			return append([]Tok{TW("wwoke")}, wresToks(res)...)
+		default:
+		}
+		if w.waiters() > 0 {
+			if w.next() == n0 {
+				return nil
+			}
+			return []Tok{TW("wwoke"), TW("wblock"), TI(1)}
+		}
+		if time.Now().After(deadline) {
+			w.pending = nil
+			return []Tok{TW("wwoke"), TW("stuck")}
+		}
+		time.Sleep(20 * time.Microsecond)
+	}
+}
+
 func slotWord(srv *sadns.ServerDnsListener, sconn net.Conn) string {
 	live, old := srv.VerifTable()
 	for _, c := range live {
@@ -109,7 +187,8 @@ func slotWord(srv *sadns.ServerDnsListener, sconn net.Conn) string {
 
 func endToks(cl *sadns.ClientDnsConnection, srv *sadns.ServerDnsListener, sconn net.Conn) []Tok {
 	return []Tok{TW("end"), TBool(cl.Closed()), TBool(sadns.VerifUserClosed(sconn)), TW(slotWord(srv, sconn)),
-		TBool(sadns.VerifClientInWaiters(cl) > 0), TBool(sadns.VerifInWaiters(sconn) > 0)}
+		TBool(sadns.VerifClientInWaiters(cl) > 0), TBool(sadns.VerifInWaiters(sconn) > 0),
+		TBool(sadns.VerifClientOutWaiters(cl) > 0), TBool(sadns.VerifOutWaiters(sconn) > 0)}
 }
 
 func ansWord(resp commands.Response, err error) string {
@@ -125,7 +204,7 @@ func ansWord(resp commands.Response, err error) string {
 
 func init() {
 	opTimeout["c17q"] = 120 * time.Second
-	// c17q <op>...   ca #d | sa #d | cr n | sr n | cc | sc | sq | sx | sf | cw | sw
+	// c17q <op>...   ca #d | sa #d | cr n | sr n | cc | sc | sq | sx | sf | cw | sw #d | sz #d | sk | cv #d <sent01> | ck
 	//   a real ClientDnsConnection that has not shaken hands (Close has no network part) and a real server-side connection made by a
 	//   real version request to a real listener; the two ends are not joined: data arrives at the client end by Append of the in-order
 	//   packet, at the server end by a real packet request
@@ -146,8 +225,14 @@ func init() {
 		}
 		cr := &reader{conn: cl, waiters: func() int { return sadns.VerifClientInWaiters(cl) }}
 		sr := &reader{conn: sconn, waiters: func() int { return sadns.VerifInWaiters(sconn) }}
+		sentNext := false
+		cw := &writer{do: func(d []byte) (int, error) { return sadns.VerifClientOutWrite(cl, d, sentNext) },
+			waiters: func() int { return sadns.VerifClientOutWaiters(cl) }, next: func() uint16 { return sadns.VerifClientOutNext(cl) }}
+		sw := &writer{do: func(d []byte) (int, error) { return sconn.Write(d) },
+			waiters: func() int { return sadns.VerifOutWaiters(sconn) }, next: func() uint16 { return sadns.VerifOutNext(sconn) }}
 		var out []Tok
 		for i := 0; i < len(a); {
+			cn0, sn0 := cw.next(), sw.next()
 			switch a[i].W {
 			case "ca":
 				if err := sadns.VerifClientArrive(cl, append([]byte{}, a[i+1].B...)); err != nil {
@@ -159,7 +244,7 @@ func init() {
 				i += 2
 			case "sa":
 				inNext, _, _, _ := sadns.VerifUserState(sconn)
-				req := &commands.PacketRequest{UserId: uid, LastAckedSeqNo: 0, Packet: &util.Packet{SeqNo: inNext, Data: append([]byte{}, a[i+1].B...)}}
+				req := &commands.PacketRequest{UserId: uid, LastAckedSeqNo: sadns.VerifOutLastAcked(sconn), Packet: &util.Packet{SeqNo: inNext, Data: append([]byte{}, a[i+1].B...)}}
 				resp, err := exchange(w.comm, w.ser, req, addrN(1))
 				out = append(out, TW(ansWord(resp, err)))
 				out = append(out, sr.released()...)
@@ -174,36 +259,61 @@ func init() {
 				cl.Close()
 				out = append(out, TW("cc"))
 				out = append(out, cr.released()...)
+				out = append(out, cw.released(cn0)...)
 				i++
 			case "sc":
 				sconn.Close()
 				out = append(out, TW("sc"))
 				out = append(out, sr.released()...)
+				out = append(out, sw.released(sn0)...)
 				i++
 			case "sq":
 				t := true
 				resp, err := exchange(w.comm, w.ser, &commands.SetOptionsRequest{UserId: uid, Closed: &t}, addrN(1))
 				out = append(out, TW(ansWord(resp, err)))
 				out = append(out, sr.released()...)
+				out = append(out, sw.released(sn0)...)
 				i++
 			case "sx":
 				w.srv.VerifExpire(sconn)
 				out = append(out, TW("sx"))
 				out = append(out, sr.released()...)
+				out = append(out, sw.released(sn0)...)
+				i++
+			case "sw":
+				out = append(out, sw.write(append([]byte{}, a[i+1].B...))...)
+				i += 2
+			case "sz":
+				sadns.VerifQueueChunk(sconn, append([]byte{}, a[i+1].B...))
+				out = append(out, TW("sz"))
+				i += 2
+			case "sk":
+				ack := sadns.VerifOutLastAcked(sconn)
+				if h, ok := sadns.VerifOutHead(sconn); ok {
+					ack = h
+				}
+				resp, err := exchange(w.comm, w.ser, &commands.PacketRequest{UserId: uid, LastAckedSeqNo: ack}, addrN(1))
+				out = append(out, TW(ansWord(resp, err)))
+				out = append(out, sw.released(sn0)...)
+				i++
+			case "cv":
+				sentNext = a[i+2].I != 0
+				out = append(out, cw.write(append([]byte{}, a[i+1].B...))...)
+				i += 3
+			case "ck":
+				sadns.VerifClientOutAck(cl)
+				out = append(out, TW("ck"))
+				out = append(out, cw.released(cn0)...)
 				i++
 			case "sf":
 				w.srv.VerifForget(sconn)
 				out = append(out, TW("sf"))
 				i++
-			case "cw", "sw":
-				// a Write on an open end belongs to the out-queue (C07); here only: is it refused once the end is closed
-				var conn net.Conn = cl
+			case "cw":
+				// dc.Write on the client that has not shaken hands: is it refused once the end is closed
 				closed := cl.Closed()
-				if a[i].W == "sw" {
-					conn, closed = sconn, sadns.VerifUserClosed(sconn)
-				}
 				if closed {
-					n, err := conn.Write([]byte{1})
+					n, err := cl.Write([]byte{1})
 					if n == 0 && err == os.ErrClosed {
 						out = append(out, TW("refused"))
 					} else {
@@ -434,83 +544,6 @@ func init() {
 		sconn.Close()
 		srv.VerifExpire(sconn)
 		return out
-	})
-}
-
-// Two probes that are NOT part of any check's cases (they document findings made while modelling the close protocol; see the report):
-//
-//	c17w <sc|sq|sx>   a Write parked in the server-side out-queue (waiting for the acknowledgement) when the session is closed by the
-//	                  application / the client's request / the sweep  -> writer released|parked  (parked: its notifier is still listed after
-//	                  the close has returned, and a retired session gets no acknowledgement any more)
-//	c17t <ms>         a Read on the server-side connection that ends by its read deadline, then a packet request with data
-//	                  -> read <err01> stale <notifiers left behind> append returned|stuck
-func init() {
-	register("c17w", func(a []Tok) []Tok {
-		w := newC13()
-		defer w.comm.Close()
-		resp, err := exchange(w.comm, w.ser, &commands.VersionRequest{ClientVersion: uint32(sadns.ProtocolVersion)}, addrN(1))
-		vr, ok := resp.(*commands.VersionResponse)
-		if !ok || err != nil || vr.Err != nil {
-			return []Tok{TW("setup"), TW("version")}
-		}
-		w.collectOne()
-		sconn := w.accepted[0]
-		done := make(chan error, 1)
-		go func() { _, err := sconn.Write([]byte("hello")); done <- err }()
-		for k := 0; sadns.VerifOutWaiters(sconn) == 0 && k < 100000; k++ {
-			select {
-			case <-done:
-				return []Tok{TW("setup"), TW("write-returned")}
-			default:
-			}
-			time.Sleep(20 * time.Microsecond)
-		}
-		switch a[0].W {
-		case "sc":
-			sconn.Close()
-		case "sq":
-			t := true
-			exchange(w.comm, w.ser, &commands.SetOptionsRequest{UserId: vr.UserId, Closed: &t}, addrN(1))
-		case "sx":
-			w.srv.VerifExpire(sconn)
-		}
-		if sadns.VerifOutWaiters(sconn) > 0 {
-			return []Tok{TW("writer"), TW("parked")}
-		}
-		select {
-		case <-done:
-			return []Tok{TW("writer"), TW("released")}
-		case <-time.After(5 * time.Second):
-			return []Tok{TW("writer"), TW("stuck")}
-		}
-	})
-	register("c17t", func(a []Tok) []Tok {
-		w := newC13()
-		defer w.comm.Close()
-		resp, err := exchange(w.comm, w.ser, &commands.VersionRequest{ClientVersion: uint32(sadns.ProtocolVersion)}, addrN(1))
-		vr, ok := resp.(*commands.VersionResponse)
-		if !ok || err != nil || vr.Err != nil {
-			return []Tok{TW("setup"), TW("version")}
-		}
-		w.collectOne()
-		sconn := w.accepted[0]
-		sconn.SetReadDeadline(time.Now().Add(time.Duration(a[0].I) * time.Millisecond))
-		_, rerr := sconn.Read(make([]byte, 8))
-		sconn.SetReadDeadline(time.Time{})
-		out := []Tok{TW("read"), TBool(rerr != nil), TW("stale"), TIn(sadns.VerifInWaiters(sconn))}
-		done := make(chan string, 1)
-		go func() {
-			inNext, _, _, _ := sadns.VerifUserState(sconn)
-			resp, err := exchange(w.comm, w.ser, &commands.PacketRequest{UserId: vr.UserId, Packet: &util.Packet{SeqNo: inNext, Data: []byte{1, 2, 3}}}, addrN(1))
-			done <- ansWord(resp, err)
-		}()
-		select {
-		case ans := <-done:
-			_, buffered := sadns.VerifUserIn(sconn)
-			return append(out, TW("append"), TW("returned"), TW(ans), TW("buffered"), TIn(buffered), TW("stale"), TIn(sadns.VerifInWaiters(sconn)))
-		case <-time.After(3 * time.Second):
-			return append(out, TW("append"), TW("stuck"))
-		}
 	})
 }
 
